@@ -19,6 +19,7 @@ from concurrent.futures import ThreadPoolExecutor
 from engine.core import log, sh, VERIF, REPO
 
 REQUIRED = [
+    # S5 repeat, S1 core (Props/C04Core.lean)
     "Pixman.Props.C04Core.repeat_in_range",
     "Pixman.Props.C04Core.repeat_none",
     "Pixman.Props.C04Core.repeat_normal_spec",
@@ -27,19 +28,35 @@ REQUIRED = [
     "Pixman.Props.C04Core.affine_linearity",
     "Pixman.Props.C04Core.stepped_linear",
     "Pixman.Props.C04Core.affine_stepping_exact",
+    # S1 on the model, corners
+    "Pixman.Props.C04.sample_affine_linear",
+    "Pixman.Props.C04.extremes_at_corners",
+    "Pixman.Props.C04.transformed_extents_contain",
+    # shape of analyze_extent, S2, S3
+    "Pixman.Props.C04.analyzeExtent_cases",
+    "Pixman.Props.C04.cover_nearest_sound",
+    "Pixman.Props.C04.cover_bilinear_sound",
+    # S4 (+S1: the walk), S9, no assert reachable
+    "Pixman.Props.C04.range_test_sound",
+    "Pixman.Props.C04.range_id_branch",
+    "Pixman.Props.C04.walk_exact_no_wrap",
+    "Pixman.Props.C04.cte_never_aborts",
+    "Pixman.Props.C04.analyzeExtent_never_aborts",
+    "Pixman.Props.C04.unrepresentable_dropped",
+    "Pixman.Props.C04.unrepresentable_corner_dropped_partial",
+    # S6
+    "Pixman.Props.C04.pad_bounds",
+    # S7
+    "Pixman.Props.C04.mallocAb_sound",
+    "Pixman.Props.C04.mallocAbc_sound",
+    "Pixman.Props.C04.mallocAbPlusC_sound",
+    "Pixman.Props.C04.createBits_sound",
 ]
-REQUIRED_C04 = []     # filled from checks/C04.required.txt (kept next to the proofs so both move together)
 
 WB_SYMS = ["wb_analyze_extent", "wb_compute_transformed_extents", "wb_repeat", "wb_pad_bounds",
            "wb_cover_nearest_flag", "wb_cover_bilinear_flag", "wb_id_transform_flag"]
 CONFIGS = ["", "ssse3", "ssse3 sse2", "ssse3 sse2 mmx", "fast mmx sse2 ssse3"]
 NONTRIVIAL_OPS = ("ae", "cte", "pad", "cb")
-
-
-def required():
-    p = VERIF / "checks" / "C04.required.txt"
-    extra = [l.strip() for l in p.read_text().splitlines() if l.strip() and not l.startswith("#")] if p.exists() else []
-    return REQUIRED + extra
 
 
 def harness_failure(ctx, name, what, out):
@@ -159,16 +176,19 @@ def report(ctx, findings, domain, limit=8):
 
 
 def run(ctx):
-    broken = ctx.lean_obligations("Pixman.Props.C04", required(), extra_modules=["Pixman.Props.C04Core"])
+    broken = ctx.lean_obligations("Pixman.Props.C04", REQUIRED, extra_modules=["Pixman.Props.C04Core"])
     quick = ctx.tier == "quick"
-    findings = run_extent(ctx, 30000 if quick else 250000, 8 if quick else 32)
+    findings = run_extent(ctx, 40000 if quick else 250000, 8 if quick else 32)
     report(ctx, findings, "extent")
     from checks import guardcommon
     guardcommon.run_guard(ctx, CONFIGS, quick)
     ctx.cov["rule"] = RULE
     if broken and not ctx.violations:
         ctx.broken_obligations_verdict(broken, "extent correspondence, exact-arithmetic oracle and guard-page sweep found no failing input")
-    ctx.level = "partial"
+    ctx.level = "proof"      # the theorems; the runtime part is an executed sweep and is declared as such below
+    ctx.extra["partial"] = ("memory safety of the compiled fetchers/combiners/SIMD loops is established only for the executed guard-page "
+                            "(and, thorough tier, AddressSanitizer) sweep; the proof level covers the request analysis, coordinate walks, repeat, "
+                            "pad bounds and allocation arithmetic of the model tied to the code by the extent correspondence")
     ctx.assumptions += ASSUMPTIONS
 
 
